@@ -33,6 +33,12 @@ func runC03(c map[string]interface{}) []Event {
 	if v, ok := c["off"]; ok {
 		off = decPoint(v, intDec)
 	}
+	// "sh": every coordinate is multiplied by 2^sh (exact); measures are divided again before they are reported
+	sh := 0
+	if v, ok := c["sh"]; ok {
+		sh = num(v)
+	}
+	up := func(p geom.Point) geom.Point { return geom.Point{X: math.Ldexp(p.X, sh), Y: math.Ldexp(p.Y, sh)} }
 	switch str(c["kind"]) {
 	case "shape":
 		sp := arr(c["spelled"])
@@ -43,10 +49,13 @@ func runC03(c map[string]interface{}) []Event {
 				for k := range r {
 					r[k].X += off.X
 					r[k].Y += off.Y
+					r[k] = up(r[k])
 				}
 			}
 		}
-		scaledPt := func(p geom.Point) []interface{} { return scaledPt(geom.Point{X: p.X - off.X, Y: p.Y - off.Y}) }
+		scaledPt := func(p geom.Point) []interface{} {
+			return scaledPt(geom.Point{X: math.Ldexp(p.X, -sh) - off.X, Y: math.Ldexp(p.Y, -sh) - off.Y})
+		}
 		e := Event{"ev": "measure", "area2": 0, "area2exact": false, "cen": []interface{}{codeBad, codeBad},
 			"pcen": []interface{}{codeBad, codeBad}, "opcen": []interface{}{codeBad, codeBad}, "oparea2": -1}
 		e["out"] = safely(func() {
@@ -59,6 +68,7 @@ func runC03(c map[string]interface{}) []Event {
 			} else {
 				a = mp.Area()
 			}
+			a = math.Ldexp(a, -2*sh)
 			e["area2"] = int(math.Round(2 * a))
 			e["area2exact"] = 2*a == math.Round(2*a)
 			e["cen"] = scaledPt(mp.Centroid())
@@ -70,7 +80,7 @@ func runC03(c map[string]interface{}) []Event {
 				}
 				g = mp[0]
 			}
-			oa := op.Area(g)
+			oa := math.Ldexp(op.Area(g), -2*sh)
 			if 2*oa == math.Round(2*oa) {
 				e["oparea2"] = int(2 * oa)
 			}
@@ -82,25 +92,28 @@ func runC03(c map[string]interface{}) []Event {
 		for k := range l {
 			l[k].X += off.X
 			l[k].Y += off.Y
+			l[k] = up(l[k])
 		}
 		q.X += off.X
 		q.Y += off.Y
+		q = up(q)
 		e := Event{"ev": "line", "len": -1, "lenexact": false, "oplen": -1, "mllen": -1, "d2K": -1, "mld2K": -2}
 		e["out"] = safely(func() {
-			ln := l.Length()
+			dn := func(v float64) float64 { return math.Ldexp(v, -sh) }
+			ln := dn(l.Length())
 			e["len"], e["lenexact"] = int(math.Round(ln)), ln == math.Round(ln)
-			e["oplen"] = int(math.Round(op.Length(l)))
+			e["oplen"] = int(math.Round(dn(op.Length(l))))
 			ml := geom.MultiLineString{l, l[:2]} // the path and its first segment
-			e["mllen"] = int(math.Round(ml.Length()))
+			e["mllen"] = int(math.Round(dn(ml.Length())))
 			fin := func(v float64) int { // a non-finite distance has no integer form
 				if math.IsNaN(v) || math.IsInf(v, 0) || math.Abs(v) > 1e9 {
 					return codeBad
 				}
 				return int(math.Round(v))
 			}
-			d := l.Distance(q)
+			d := dn(l.Distance(q))
 			e["d2K"] = fin(d * d * c03K)
-			md := ml.Distance(q)
+			md := dn(ml.Distance(q))
 			e["mld2K"] = fin(md * md * c03K)
 		})
 		return []Event{e}
